@@ -1,8 +1,8 @@
 SPECIFICATION Spec
 CONSTANTS
   TopoId = "T2"
-  Runs = {0, 1}
-  MaxSegs = 2
+  Runs = {0}
+  MaxSegs = 1
   MaxLen = 3
 INVARIANTS TypeOK GraphEqualsDefinition WeightIsLinks PathsAreWalks HopFieldsVerify MtuIsTopologyMinimum ResultOK
 CHECK_DEADLOCK FALSE
